@@ -960,6 +960,9 @@ def gen_for(rng, sigs, depth, colon=()):
                             ("c", '["a", "b"]')])
     if "for" in colon and rng.random() < 0.04:
         coll = "xs[0:2]"
+    elif rng.random() < 0.2:
+        # the collection expression itself contains ` in `: the header is split at the FIRST ` in `, in both syntaxes
+        var, coll = "i", rng.choice(["[x for x in xs]", "[x for x in xs if x not in d]", "[(x in xs) for x in range(2)]"])
     return For(var, coll, [gen_block_item(rng, sigs, depth, "for", colon) for _ in range(rng.randint(1, 3))])
 
 
